@@ -61,7 +61,7 @@ def g_matrix(hexm):
 
 
 def g_step(c, fmin, data_hex, s):
-    fr = "{| T := %d%%nat; F := %d%%nat; df := %s; dt := %s; fmin := %s; data := %s |}" % (c["T"], c["F"], gq(c["df"]), gq(c["dt"]), gq(fmin), g_matrix(data_hex))
+    fr = "{| T := %d%%nat; F := %d%%nat; df := %s; dt := %s; fmin := %s; t0 := %s; data := %s |}" % (c["T"], c["F"], gq(c["df"]), gq(c["dt"]), gq(fmin), gq(c.get("ts_shift", 0.0) * c["dt"]), g_matrix(data_hex))
     br = "None" if s.get("brange") is None else "(Some (%s, %s))" % (gq(s["brange"][0]), gq(s["brange"][1]))
     bp = "None" if s.get("bp") is None else "(Some %s)" % g_comp(s["bp"])
     return "run1 (add_signal %s %s %s %s %s %s %s)" % (fr, g_comp(s["path"]), g_comp(s["tprof"]), g_fprof(s["fprof"]), bp, br, g_opts(s.get("opts", {})))
@@ -105,7 +105,11 @@ def gen_frame(rng, prior_choices=("zero", "ramp")):
     asc = rng.random() < 0.5
     fmin = float(rng.choice([1000, 4096, 100]))
     fch1 = fmin if asc else fmin + (F - 1) * df
-    return dict(T=T, F=F, df=df, dt=dt, fch1=fch1, ascending=asc, prior=rng.choice(prior_choices), seed=rng.randint(0, 999)), fmin
+    c = dict(T=T, F=F, df=df, dt=dt, fch1=fch1, ascending=asc, prior=rng.choice(prior_choices), seed=rng.randint(0, 999))
+    if rng.random() < 0.25:
+        # a frame whose own time axis does not start at 0 (what Cadence.add_signal hands to a frame; exact in doubles: multiples of dt/2)
+        c["ts_shift"] = rng.choice([0.5, 3.0, 7.5, 100.0])
+    return c, fmin
 
 
 def gen_comp(rng, kind, n, lo=0, hi=3, center=None, slope=None):
@@ -135,7 +139,7 @@ def gen_signal(rng, c, fmin, opts_all=True, br_kinds=None):
     teff = T + (1 if o.get("smear") else 0)
     center = fmin + rng.choice([-2, 0, 1, F // 2, F - 1, F + 1]) * df + rng.choice([0.0, 0.5 * df, -0.25 * df])
     slope = rng.choice([0.0, df / dt, -df / dt, 0.5 * df / dt, 2 * df / dt, -1.5 * df / dt])
-    ts_path = [i * dt for i in range(teff)]
+    ts_path = [c.get("ts_shift", 0.0) * dt + i * dt for i in range(teff)]
     s = dict(path=gen_comp(rng, "path", ts_path, center=center, slope=slope),
              tprof=gen_comp(rng, "t", range(T)),
              fprof=rng.choice([dict(kind="box", w=float(rng.choice([1, 2, 3, 6])) * df), dict(kind="tri", w=float(rng.choice([1, 2, 4])) * df),
@@ -248,6 +252,7 @@ def spec_matrix(c, fmin, s):
     integration / smearing are requested; zero outside the bounding range."""
     T, F = c["T"], c["F"]
     df, dt, fmin = Fraction(c["df"]), Fraction(c["dt"]), Fraction(fmin)
+    t0 = Fraction(c.get("ts_shift", 0.0)) * dt          # the frame's own time axis: t_i = ts[0] + i*dt
     o = s.get("opts", {})
     tsub, fsub, nsm = o.get("t_sub", 10), o.get("f_sub", 10), o.get("n_smear", 10)
     smear = o.get("smear", False)
@@ -267,8 +272,8 @@ def spec_matrix(c, fmin, s):
         if k == "poly":
             f = _fun(spec)
             if integrate:
-                return [sum(f((i * tsub + m) * (dt / tsub)) for m in range(tsub)) / tsub for i in range(n)]
-            return [f(i * dt) for i in range(n)]
+                return [sum(f(t0 + (i * tsub + m) * (dt / tsub)) for m in range(tsub)) / tsub for i in range(n)]
+            return [f(t0 + i * dt) for i in range(n)]
         if k in ("arr", "list"):
             if len(spec["vals"]) != n:
                 return "ValueError"
